@@ -82,6 +82,8 @@ inductive Stmt where
   | hook (h : HExp) (items : Bool) (extended : Bool)
       -- `object._on_trait_change(h, name [+ "_items"], remove=remove, dispatch=self.dispatch | "extended",
       --                          priority=self.priority, target=self._get_target())`
+  | hookAny (h : HExp)
+      -- `object._on_trait_change(h, remove=remove, dispatch=self.dispatch, …)`: an anytrait notifier
   | raise
   | retDest                                      -- `return (object, name)`
   | retInvalid                                   -- `return INVALID_DESTINATION`
@@ -148,6 +150,7 @@ def evalCond (e : Env) : Cond → Bool
 /-- State of the evaluation of a `_register_*` body. -/
 structure Out where
   hooks : List (Bool × Who × Bool) := []       -- (on `<name>_items`?, who, dispatch "extended"?) in call order
+  anyHooks : List Who := []                    -- anytrait notifiers (`_register_anytrait`)
   tl : Meth := .error
   tlItems : Meth := .error
   iter : Option Bool := none
@@ -169,6 +172,7 @@ def exec (e : Env) : Stmt → Out → Out
   | .getHandler, o => o
   | .setTl items m, o => if o.done then o else if items then { o with tlItems := m } else { o with tl := m }
   | .hook h items ext, o => if o.done then o else { o with hooks := o.hooks ++ [(items, whoOf o h, ext)] }
+  | .hookAny h, o => if o.done then o else { o with anyHooks := o.anyHooks ++ [whoOf o h] }
   | .raise, o => if o.done then o else { o with done := true, raised := true }
   | .retDest, o => if o.done then o else { o with done := true }
   | .retInvalid, o => if o.done then o else { o with done := true }
@@ -250,7 +254,7 @@ inductive DVT where
 
 /-- The `_register_<kind>` method names (values of SIMPLE_/LIST_/DICT_/SET_LISTENER). -/
 inductive RegName where
-  | simple | list | dict | set
+  | simple | list | dict | set | anytrait
   deriving DecidableEq, Repr
 
 /-- Everything the translator extracts. -/
